@@ -324,7 +324,10 @@ Print Assumptions C13_read_of_written_opens_the_ciphertext.
    (SecretsProofs2.opens_to_a_keyset) - a key / associated-data commitment
    failure of the AEAD on this ciphertext.  Nothing here says the event cannot
    happen: AES-GCM, ChaCha20-Poly1305 and AES-GCM-SIV are not committing, for
-   them it is excluded only computationally, for honestly chosen keys. *)
+   them it is excluded only computationally, for honestly chosen keys.
+   (The hypothesis k' <> k \/ ad' <> ad is not used by the proof: the statement is
+   C13_read_of_written_opens_the_ciphertext read for a foreign pair - it only NAMES what a
+   successful wrong-key read would be; it proves no rejection.) *)
 Theorem C13_wrong_key_or_ad_read_is_commitment_failure :
   forall (L : stdlib) (K : Type)
          (aead_enc : K -> bytes -> bytes -> bytes -> bytes) (aead_dec : K -> bytes -> bytes -> option bytes)
